@@ -4,16 +4,17 @@ package corerad
 
 import (
 	"encoding/json"
-	"net/netip"
-	"syscall"
 	"fmt"
+	"net/netip"
 	"os"
 	"strconv"
 	"strings"
+	"syscall"
 	"testing"
 	"time"
 
 	"github.com/mdlayher/corerad/internal/netstate"
+	"github.com/mdlayher/corerad/internal/plugin"
 	"github.com/mdlayher/corerad/verifrt/enum"
 	"github.com/mdlayher/corerad/verifrt/ev"
 	"github.com/mdlayher/corerad/verifrt/vsched"
@@ -39,8 +40,12 @@ type c06Event struct {
 type c06Case struct {
 	Interval time.Duration `json:"interval,omitempty"` // min=max interval (default 4s)
 	Events   []c06Event    `json:"events"`
-	Choices []int      `json:"choices,omitempty"`
-	Tail    time.Duration `json:"tail,omitempty"` // quiet time before the stop (default 8s)
+	Choices  []int         `json:"choices,omitempty"`
+	Tail     time.Duration `json:"tail,omitempty"` // quiet time before the stop (default 8s)
+	// plugins, when set, returns the option plugins of the interface (called inside
+	// the bubble, so that epochs are on the virtual clock). Not part of a replay file:
+	// the test that sets it sets it again when replaying.
+	plugins func() []plugin.Plugin
 }
 
 const c06Interval = 4 * time.Second
@@ -54,7 +59,11 @@ func c06Scenario(c c06Case, keep **advWorld) *vsched.Scenario {
 			if c.Interval != 0 {
 				iv = c.Interval
 			}
-			a := newAdvWorld(staticCfg("eth0", iv, iv), true, true)
+			cfg := staticCfg("eth0", iv, iv)
+			if c.plugins != nil {
+				cfg.Plugins = c.plugins()
+			}
+			a := newAdvWorld(cfg, true, true)
 			failNext := false
 			nwrites := map[int]int{}
 			a.writeFault = func(fc *fconn, dst netip.Addr) error {
